@@ -133,8 +133,13 @@ def run(REG, tier, seed, jobs):
             "'\\\u2192'", "'\\u\u2192'", "'\\x\u00e9'"]
     ctx = ['x = {}', 'f({})', '[{}, {}]', "{{'k': {}}}", 'if v == {}\nendif', 'x = {} + {}', 'f(k: {})', 'x = a[{}]', 'x = {}.m()']
     ltexts = [c.replace('{}', l).replace('{{', '{').replace('}}', '}') + '\n' for c in ctx for l in lits]
+    # extreme sizes: integer literals beyond Python's conversion limit (4300 digits), every base; nesting beyond the interpreter's recursion limit
+    ltexts += ['x = ' + '9' * 5000 + '\n', 'x = 0x' + 'f' * 6000 + '\n', 'f(' + '1' * 4301 + ')\n', 'x = 0b' + '1' * 20000 + '\n', 'x = 0o' + '7' * 6000 + '\n', 'x = ' + '7' * 4300 + '\n',
+               'x = ' + '[' * 100 + ']' * 100 + '\n', 'x = ' + '(' * 200 + '1' + ')' * 200 + '\n', 'x = ' + '[' * 3000 + ']' * 3000 + '\n', 'x = ' + 'f(' * 400 + ')' * 400 + '\n',
+               'x = ' + '-' * 2000 + '1\n', 'x = ' + 'not ' * 1500 + 'true\n', 'x = ' + '{\'k\': ' * 300 + '1' + '}' * 300 + '\n', 'x = a' + '[0]' * 50 + '\n', 'x = ' + 'a ? ' * 2 + 'b : c\n',
+               'if true\n' * 300 + 'endif\n' * 300, 'x = a' + '.m()' * 600 + '\n', 'x = 1' + ' + 1' * 3000 + '\n']
     ev, nt, fails = pmap(_parse_chunk, chunked(iter(ltexts), 50), jobs)
-    parts.append({'name': 'C02/bounded/literal-forms', 'function': 'Parser.parse / RawPrinter', 'bound': f'{len(ltexts)} texts: {len(lits)} number / string / keyword literal spellings (leading zeros, every base prefix with and without digits, near misses, escapes, adjacent strings) in {len(ctx)} contexts: accepted and printed back byte for byte, or rejected with a located syntax error — nothing else escapes',
+    parts.append({'name': 'C02/bounded/literal-forms', 'function': 'Parser.parse / RawPrinter', 'bound': f'{len(ltexts)} texts: {len(lits)} number / string / keyword literal spellings (leading zeros, every base prefix with and without digits, near misses, escapes, adjacent strings) in {len(ctx)} contexts, and 18 texts of extreme size (integer literals of 4300-20000 digits in every base, nesting / chains of 50-3000 levels of every recursive construct); in these contexts: accepted and printed back byte for byte, or rejected with a located syntax error — nothing else escapes',
                   'evaluations': ev, 'distinct_nontrivial': nt, 'rule': 'non-trivial: accepted', 'exhaustive': True, 'failures': fails})
     k = 3 if tier == 'quick' else 4
     gen = (''.join(t) for j in range(k + 1) for t in itertools.product(TOKENS, repeat=j))
